@@ -11,7 +11,8 @@ package server
 // OpenAI-compatible endpoints through raw JSON / SSE parsing. The raw body of every response is kept as well.
 //
 // Mock runner: replays the case's chunks as llm/server.go does (content-only responses, then one content-free
-// response carrying Done, DoneReason and the token counts) or returns an error after j chunks.
+// response carrying Done, DoneReason and the token counts) or returns an error after j chunks; optionally its
+// Tokenize fails once Done has been delivered (the runner dies right after its last message).
 //
 // Oracle (metamorphic / differential), per case:
 //   R1  the non-streamed native result is the same under two different chunkings of the same output
@@ -61,8 +62,9 @@ const (
 	// the OpenAI stream writers re-encode a mid-stream {"error":…} line as an empty chunk
 	c17KnownSwallow = "openai-stream-error-swallowed"
 
-	c17FailMsg = "c17: the runner failed"
-	c17StopSeq = "<|eot|>"
+	c17FailMsg    = "c17: the runner failed"
+	c17TokFailMsg = "c17: tokenize failed after the final response"
+	c17StopSeq    = "<|eot|>"
 )
 
 // ------------------------------------------------------------------------------------------ case
@@ -85,6 +87,10 @@ type c17Case struct {
 	// 0: no failure; k > 0: Completion returns an error after (k-1) mod (chunks+1) chunks
 	FailAfter int  `json:"fail_after,omitempty"`
 	Usage     bool `json:"usage,omitempty"` // stream_options.include_usage on the OpenAI streams
+	// the runner's Tokenize fails once Completion has delivered its Done response in the current request (the runner
+	// dies right after its last message). Only a non-raw /api/generate tokenizes at that point (prompt+response, for
+	// the "context" field); prompt-side Tokenize calls (chat truncation) come earlier and still work.
+	TokFail bool `json:"tok_fail,omitempty"`
 	// the native streamed request leaves "stream" out (streaming is the default) instead of sending true
 	StreamNil bool `json:"stream_nil,omitempty"`
 	// a stop sequence is sent (options.stop / OpenAI "stop"): stopping is the runner's job, the option must only reach it
@@ -133,7 +139,8 @@ type c17Script struct {
 	reason    llm.DoneReason
 	promptN   int
 	evalN     int
-	failAfter int // -1: none
+	failAfter int  // -1: none
+	tokFail   bool // Tokenize fails after Done has been delivered
 }
 
 type c17Runner struct {
@@ -141,6 +148,9 @@ type c17Runner struct {
 	script  c17Script
 	prompts []string
 	formats []string // format and stop sequences the runner was given
+	// doneSent: Done has been handed to the callback in the current request; tokenizeFailed: Tokenize errors returned in it
+	doneSent       bool
+	tokenizeFailed int
 }
 
 func (m *c17Runner) set(s c17Script) {
@@ -148,7 +158,15 @@ func (m *c17Runner) set(s c17Script) {
 	m.script = s
 	m.prompts = m.prompts[:0]
 	m.formats = m.formats[:0]
+	m.doneSent = false
+	m.tokenizeFailed = 0
 	m.mu.Unlock()
+}
+
+func (m *c17Runner) tokenizeFailures() int {
+	m.mu.Lock()
+	defer m.mu.Unlock()
+	return m.tokenizeFailed
 }
 
 func (m *c17Runner) seen() (prompts, formats []string) {
@@ -176,6 +194,9 @@ func (m *c17Runner) Completion(_ context.Context, req llm.CompletionRequest, fn 
 	if s.failAfter == len(s.chunks) {
 		return errors.New(c17FailMsg)
 	}
+	m.mu.Lock()
+	m.doneSent = true // the handler tokenizes inside the callback that receives Done
+	m.mu.Unlock()
 	fn(llm.CompletionResponse{Done: true, DoneReason: s.reason, PromptEvalCount: s.promptN, PromptEvalDuration: 1,
 		EvalCount: s.evalN, EvalDuration: 1})
 	return nil
@@ -188,6 +209,15 @@ func (m *c17Runner) Embedding(context.Context, string) ([]float32, error) {
 }
 
 func (m *c17Runner) Tokenize(_ context.Context, s string) ([]int, error) {
+	m.mu.Lock()
+	fail := m.script.tokFail && m.doneSent
+	if fail {
+		m.tokenizeFailed++
+	}
+	m.mu.Unlock()
+	if fail {
+		return nil, errors.New(c17TokFailMsg)
+	}
 	f := strings.Fields(s)
 	out := make([]int, len(f))
 	for i, w := range f {
@@ -746,6 +776,12 @@ func c17Gen(t *rapid.T, o c17GenOpts) c17Case {
 		c.FailAfter = rapid.IntRange(1, 13).Draw(t, "fail_after")
 	}
 	c.Usage = rapid.Bool().Draw(t, "usage")
+	// drawn for every shape (for chat and raw generate requests it must change nothing), more often where it bites
+	if !sh.chat && !sh.raw {
+		c.TokFail = rapid.IntRange(0, 4).Draw(t, "tok_fail") <= 1
+	} else {
+		c.TokFail = rapid.IntRange(0, 7).Draw(t, "tok_fail") == 0
+	}
 	c.StreamNil = rapid.IntRange(0, 3).Draw(t, "stream_nil") == 0
 	c.Stop = rapid.IntRange(0, 3).Draw(t, "stop") == 0
 
@@ -1355,7 +1391,14 @@ func c17Run(c c17Case, o c17Opts) (info c17Info, err error) {
 		failA = (c.FailAfter - 1) % (len(chunksA) + 1)
 		failB = (c.FailAfter - 1) % (len(chunksB) + 1)
 	}
-	failing := failA >= 0
+	// the Tokenize fault bites only where the handler tokenizes after Done: /api/generate without raw, and only if
+	// the runner got as far as Done
+	tokFails := c.TokFail && !sh.chat && !sh.raw && failA < 0
+	failing := failA >= 0 || tokFails
+	wantErr := c17FailMsg
+	if tokFails {
+		wantErr = c17TokFailMsg
+	}
 
 	// ---- classes
 	cl := func(s string) {
@@ -1441,7 +1484,12 @@ func c17Run(c c17Case, o c17Opts) (info c17Info, err error) {
 	if c.System != "" {
 		cl("system_prompt")
 	}
-	if failing {
+	if tokFails {
+		cl("tokenize_failure_after_done")
+	} else if c.TokFail {
+		cl("tokenize_fault_without_effect") // chat, raw generate, or the runner failed before Done
+	}
+	if failA >= 0 {
 		switch {
 		case failA == 0:
 			cl("failure_before_first_chunk")
@@ -1455,10 +1503,10 @@ func c17Run(c c17Case, o c17Opts) (info c17Info, err error) {
 	if cutAfterFirstCall {
 		cl("boundary_after_first_call")
 	}
-	info.nontrivial = (len(chunksA) >= 3 && (insideJSON || nextToMultibyte)) || (failing && failA > 0)
+	info.nontrivial = (len(chunksA) >= 3 && (insideJSON || nextToMultibyte)) || failA > 0 || tokFails
 
 	script := func(chunks []string, fail int) {
-		e.mock.set(c17Script{chunks: chunks, reason: reason, promptN: c.PromptN, evalN: c.EvalN, failAfter: fail})
+		e.mock.set(c17Script{chunks: chunks, reason: reason, promptN: c.PromptN, evalN: c.EvalN, failAfter: fail, tokFail: c.TokFail})
 	}
 	var prompts, formats []string
 	note := func(what string) error {
@@ -1468,6 +1516,9 @@ func c17Run(c c17Case, o c17Opts) (info c17Info, err error) {
 		}
 		prompts = append(prompts, p[0])
 		formats = append(formats, f[0])
+		if n := e.mock.tokenizeFailures(); (n > 0) != tokFails {
+			return fmt.Errorf("%s: harness expectation wrong: Tokenize failed %d times after Done, expected to bite: %v", what, n, tokFails)
+		}
 		if prompts[0] != p[0] || formats[0] != f[0] {
 			return fmt.Errorf("%s: the runner was given prompt %q format %q, but %q format %q for the first request of the case — the requests are not equivalent",
 				what, p[0], f[0], prompts[0], formats[0])
@@ -1496,8 +1547,8 @@ func c17Run(c c17Case, o c17Opts) (info c17Info, err error) {
 		chunksA, failA, prompts[0], ns.status, ns.errMsg, ns.text, c17CallsString(ns.calls), ns.reason, ns.promptN, ns.evalN)
 	if failing {
 		for _, r := range []*c17Result{&ns, &ns2} {
-			if r.status != http.StatusInternalServerError || r.errMsg != c17FailMsg {
-				return info, fmt.Errorf("%s: the runner failed with %q but the response is status %d error %q", r.what, c17FailMsg, r.status, r.errMsg)
+			if r.status != http.StatusInternalServerError || r.errMsg != wantErr {
+				return info, fmt.Errorf("%s: the runner failed with %q but the response is status %d error %q", r.what, wantErr, r.status, r.errMsg)
 			}
 		}
 	} else {
@@ -1542,9 +1593,12 @@ func c17Run(c c17Case, o c17Opts) (info c17Info, err error) {
 		return info, fmt.Errorf("%s: status %d", st.what, st.status)
 	}
 	partial := strings.Join(chunksA[:max(failA, 0)], "")
+	if tokFails {
+		partial = c.Text // every chunk had been delivered when Tokenize failed
+	}
 	if failing {
-		if st.errMsg != c17FailMsg {
-			return info, fmt.Errorf("%s: the runner failed with %q but the stream ended with error %q", st.what, c17FailMsg, st.errMsg)
+		if st.errMsg != wantErr {
+			return info, fmt.Errorf("%s: the runner failed with %q but the stream ended with error %q", st.what, wantErr, st.errMsg)
 		}
 		if !sh.tools && st.text != partial {
 			return info, fmt.Errorf("%s: text before the error is %q, the runner had produced %q", st.what, st.text, partial)
@@ -1577,8 +1631,8 @@ func c17Run(c c17Case, o c17Opts) (info c17Info, err error) {
 			return info, err
 		}
 		if failing {
-			if ons.status != http.StatusInternalServerError || ons.errMsg != c17FailMsg {
-				return info, fmt.Errorf("%s: the runner failed with %q but the response is status %d error %q", ons.what, c17FailMsg, ons.status, ons.errMsg)
+			if ons.status != http.StatusInternalServerError || ons.errMsg != wantErr {
+				return info, fmt.Errorf("%s: the runner failed with %q but the response is status %d error %q", ons.what, wantErr, ons.status, ons.errMsg)
 			}
 		} else {
 			if ons.status != http.StatusOK {
@@ -1610,8 +1664,8 @@ func c17Run(c c17Case, o c17Opts) (info c17Info, err error) {
 			return info, fmt.Errorf("%s: status %d error %q", ost.what, ost.status, ost.errMsg)
 		}
 		if failing {
-			if ost.errMsg != "" && ost.errMsg != c17FailMsg {
-				return info, fmt.Errorf("%s: the runner failed with %q but the stream's error event says %q", ost.what, c17FailMsg, ost.errMsg)
+			if ost.errMsg != "" && ost.errMsg != wantErr {
+				return info, fmt.Errorf("%s: the runner failed with %q but the stream's error event says %q", ost.what, wantErr, ost.errMsg)
 			}
 			if !sh.tools && ost.text != partial {
 				return info, fmt.Errorf("%s: text before the failure is %q, the runner had produced %q", ost.what, ost.text, partial)
